@@ -25,7 +25,7 @@ import z3
 
 from pyvc.framework import Harness
 from pyvc.interp import Spec, PyRaise, INLINE
-from pyvc.values import Obj, PyList, PySet, Builtin, Opaque
+from pyvc.values import Obj, PyList, PySet, Builtin, Opaque, GenObj
 from pyvc.ops import make_dict
 
 PROPERTY = "C08"
@@ -236,6 +236,28 @@ def h_enter_exit():
         vm.call_method(root, "__exit__", None, None, None)
         ctx.check("SymbolicExpression.__enter__/__exit__::stack-discipline", z3.BoolVal(ok1 and ok2 and stack.items == []), detail=repr(stack.items))
         ctx.check("SymbolicExpression._current_parent_::is-the-stack-top", z3.BoolVal(vm.call(vm._getattr(SE, "_current_parent_"), [], {}) is None))
+        # a rule tree written in SEVERAL with-blocks: the first block adds a branch (the real rule functions re-parent the
+        # conditions), a later `with query:` enters the base rule again -- what is written there belongs to the base rule
+        for op in ("refinement", "alternative", "next_rule"):
+            forest2 = Forest(vm)
+            stack2 = PyList([])
+            SE.class_attr_vals["_symbolic_expression_stack_"] = stack2
+            SE.class_attr_vals["_id_expression_map_"] = make_dict([])
+            q = forest2.node("An", "query")
+            d = forest2.node("SetOf", "descriptor", selected_variables=PyList([]), _child_=None)
+            base = forest2.node("SymbolicExpression", "base-conditions")
+            forest2.link(q, d, "_child_")
+            forest2.link(d, base, "_child_")
+            vm.call_method(q, "__enter__")                       # the conditions root is found by the real property here
+            first = list(stack2.items)
+            new_branch = forest2.node("SymbolicExpression", "new-branch")
+            vm.call(vm.module_global(RULE, op), [new_branch], {})
+            vm.call_method(q, "__exit__", None, None, None)
+            vm.call_method(q, "__enter__")
+            second = list(stack2.items)
+            vm.call_method(q, "__exit__", None, None, None)
+            ctx.check("SymbolicExpression.__enter__::a-later-with-block-of-the-query-enters-the-base-rule-again",
+                      z3.BoolVal(first == [base] and second == [base] and stack2.items == []), detail=f"after {op}: first block entered {first}, second block entered {second}")
     return Harness("enter-exit", run, spec=Spec())
 
 
@@ -318,6 +340,28 @@ class SelWorld:
         return z3.IntVal(v) if isinstance(v, int) else v
 
 
+def count_inner_outputs(vm, base_cls_name, counter):
+    """wrap the real <base>._evaluate__ (the else-if / union the selector extends): every result it hands to the selector is counted"""
+    from pyvc.ctx import PathEnd
+    base = vm.loader.cls(SYM, base_cls_name)
+    real = base.find("_evaluate__", vm.loader)[2]
+
+    def wrapped(it, a, k):
+        key = f"{base_cls_name}._evaluate__"
+        me = it.spec.stubs.pop(key)
+        try:
+            inner = it.call_func(real, list(a), dict(k))
+        finally:
+            it.spec.stubs[key] = me
+
+        def counting():
+            for out in it.iterate(inner):
+                counter.append(out)
+                yield out
+        return GenObj(counting(), f"counted-{base_cls_name}")
+    vm.spec.stubs[f"{base_cls_name}._evaluate__"] = wrapped
+
+
 def h_except_if():
     """ExceptIf: a false left result passes through; for a true left result every true result of the exception replaces it
     (with the exception's conclusions), and the left result itself (with its conclusions) is yielded iff the exception has none."""
@@ -381,7 +425,27 @@ def h_alternative():
         W = SelWorld(vm, "Alternative")
         src = vm.alloc(vm.ext("object"), {}, tag="incoming-bindings")
         n_updates = 0
-        for res in vm.iterate(vm.call_method(W.node, "_evaluate__", src)):
+        handed, passed = [], []
+        count_inner_outputs(vm, "ElseIf", handed)
+        from pyvc.ctx import PathEnd as _PathEnd
+
+        def all_results():
+            it_ = vm.iterate(vm.call_method(W.node, "_evaluate__", src))
+            while True:
+                try:
+                    res_ = next(it_)
+                except StopIteration:
+                    break
+                except _PathEnd:
+                    # the path is cut after an arbitrary iteration: whatever the else-if handed over so far has been passed on
+                    ctx.check("Alternative._evaluate__::every-result-of-the-else-if-is-passed-on-whether-or-not-it-selects-new-conclusions",
+                              z3.BoolVal(len(passed) == len(handed)), detail=f"{len(handed)} results of the else-if, {len(passed)} outputs")
+                    raise
+                passed.append(res_)
+                yield res_
+            ctx.check("Alternative._evaluate__::every-result-of-the-else-if-is-passed-on-whether-or-not-it-selects-new-conclusions",
+                      z3.BoolVal(len(passed) == len(handed)), detail=f"{len(handed)} results of the else-if, {len(passed)} outputs")
+        for res in all_results():
             ctx.cover("yielded")
             l, r = W.last.get("left"), W.last.get("right")
             new_updates = W.updates[n_updates:]
@@ -417,7 +481,26 @@ def h_next():
         W = SelWorld(vm, "Next")
         src = vm.alloc(vm.ext("object"), {}, tag="incoming-bindings")
         n_updates = 0
-        for res in vm.iterate(vm.call_method(W.node, "_evaluate__", src)):
+        handed, passed = [], []
+        count_inner_outputs(vm, "Union", handed)
+        from pyvc.ctx import PathEnd as _PathEnd
+
+        def all_results():
+            it_ = vm.iterate(vm.call_method(W.node, "_evaluate__", src))
+            while True:
+                try:
+                    res_ = next(it_)
+                except StopIteration:
+                    break
+                except _PathEnd:
+                    ctx.check("Next._evaluate__::every-result-of-the-union-is-passed-on-whether-or-not-it-selects-new-conclusions",
+                              z3.BoolVal(len(passed) == len(handed)), detail=f"{len(handed)} results of the union, {len(passed)} outputs")
+                    raise
+                passed.append(res_)
+                yield res_
+            ctx.check("Next._evaluate__::every-result-of-the-union-is-passed-on-whether-or-not-it-selects-new-conclusions",
+                      z3.BoolVal(len(passed) == len(handed)), detail=f"{len(handed)} results of the union, {len(passed)} outputs")
+        for res in all_results():
             ctx.cover("yielded")
             l, r = W.last.get("left"), W.last.get("right")
             new_updates = W.updates[n_updates:]
